@@ -516,15 +516,15 @@ func genParse(t *rapid.T) parseCase {
 	l := list(lang)
 	n := rapid.IntRange(0, 26).Draw(t, "n")
 	huge, hugeAt := "", -1
-	switch h.Pick(t, "big", 1200, 1, 1) {
+	switch h.Pick(t, "big", 2000, 1, 1) {
 	case 1: // one token longer than any internal line / token buffer (64 KiB and more)
-		huge = strings.Repeat(h.OneOf(t, "hugeunit", "a", "z", "\u3042"), h.OneOf(t, "hugelen", 65535, 65536, 65537, 70000, 200000))
+		huge = strings.Repeat(h.OneOf(t, "hugeunit", "a", "z", "\u3042"), h.OneOf(t, "hugelen", 65535, 65536, 65537, 70000))
 		if n == 0 {
 			n = 3
 		}
 		hugeAt = rapid.IntRange(0, n-1).Draw(t, "hugeat")
 	case 2: // very many words: drawn as one seed, plain separators
-		n = h.OneOf(t, "manywords", 4096, 10000, 70000)
+		n = h.OneOf(t, "manywords", 4096, 10000)
 		seed := rapid.Uint64().Draw(t, "manyseed")
 		words := make([]string, n)
 		var text strings.Builder
